@@ -27,6 +27,8 @@ inductive CExpr where
   | gt (a b : CExpr)          -- a > b    (0 / 1)
   | lt (a b : CExpr)          -- a < b    (0 / 1)
   | scast8 (a : CExpr)        -- (signed char) a
+  | lor (a b : CExpr)         -- a || b   (0 / 1)
+  | land (a b : CExpr)        -- a && b   (0 / 1)
   deriving DecidableEq, Repr
 
 /-- reinterpret an integer as a 32-bit two's-complement `int` -/
@@ -52,6 +54,8 @@ def CExpr.eval (w : Int) : CExpr → Int
   | .gt a b => b2i (decide (a.eval w > b.eval w))
   | .lt a b => b2i (decide (a.eval w < b.eval w))
   | .scast8 a => sextChar (a.eval w)
+  | .lor a b => b2i (a.eval w != 0 || b.eval w != 0)
+  | .land a b => b2i (a.eval w != 0 && b.eval w != 0)
 
 /-- one arm of the if / else-if chain: (condition, value assigned to `status`) -/
 abbrev Branch := CExpr × CExpr
